@@ -120,6 +120,9 @@ func gen(r *rand.Rand, kw string, depth int) *stmt {
 			c = allKw[r.Intn(len(allKw))]
 		case x == 1:
 			c = []string{"Name", "Statement", "Parent", "Ext", "bogus", "a:b:c"}[r.Intn(6)]
+		case x == 2:
+			// degenerate prefixed keywords: still one colon, so still filed as extensions
+			c = []string{":foo", "foo:", ":", "ex0:", ":ext1", "-:-", "ex0:ext.1-x"}[r.Intn(7)]
 		case x < 8:
 			c = fmt.Sprintf("ex%d:ext%d", r.Intn(3), r.Intn(3))
 		default:
